@@ -317,12 +317,26 @@ class Parser:
     #
     def expand_macro(self, buf, tok, math):
         buf.next()
-        buf.skip_space()    # for macros without arguments, even if known
+        # for macros without arguments, even if known
+        lang_toks = self.skip_space_keep_lang(buf)
         if tok.txt not in self.the_macros:
             if not (math or tok.txt in self.unknowns):
                 self.unknowns.append(tok.txt)
-            return [defs.ActionToken(tok.pos)]
-        return self.expand_arguments(buf, self.the_macros[tok.txt], tok.pos)
+            return [defs.ActionToken(tok.pos)] + lang_toks
+        return (self.expand_arguments(buf, self.the_macros[tok.txt], tok.pos)
+                    + lang_toks)
+
+    #   skip space like Buffer.skip_space(), but return the skipped language
+    #   switches: they must not get lost together with the space
+    #
+    def skip_space_keep_lang(self, buf):
+        lang_toks = []
+        tok = buf.cur()
+        while buf.is_space(tok):
+            if type(tok) is defs.LanguageToken:
+                lang_toks.append(tok)
+            tok = buf.next()
+        return lang_toks
 
     #   expand arguments for "normal" macro or \begin of environment
     #   Return: tokens to be inserted
